@@ -197,6 +197,16 @@ CLAIMED = {
         "correct_from_presidential off.",
         "DESIGN.md section 5 C10",
     ),
+    "C12": (
+        "Lean 4 theorems about the generator / client-state discipline and the set-iteration independence of the aggregate list + bridge lemmas to the randomness sources re-read from source (all seeded, none at module level) + call histories across clients, processes and hash seeds compared bit-for-bit",
+        "estimate_history_independent / estimate_resets_client / natsum_idempotent / natsum_depends_on_last_estimate_only / drawN_seed_only / "
+        "sort_perm_invariant are proved of the model (fresh generators per run, summary reads only, de-duplicate-then-sort). bridge_all_seeded "
+        "is re-checked against a scan of every random call site reachable from get_estimates on each run. Histories of estimate / summary "
+        "calls with repeated arguments run on one client, on fresh clients and in fresh processes under several PYTHONHASHSEED values; all "
+        "digests for equal arguments must agree; the summary asked repeatedly on near-tied contests must not move.",
+        "Partial: hash seeds, process freshness and BLAS threading are runtime behaviour (exhibited by subprocess runs, not proved).",
+        "DESIGN.md section 5 C12",
+    ),
 }
 
 PENDING_REASON = "check not built yet in this session (model and correspondence in progress); not claimed until it is"
